@@ -1038,6 +1038,9 @@ var verifAPI = map[string]intrinsic{
 	"verifIteU8": func(t *Thread, a []Value) Value {
 		return t.run.e.tt.Ite(a[0].(*Term), a[1].(*Term), a[2].(*Term))
 	},
+	"verifIteU16": func(t *Thread, a []Value) Value {
+		return t.run.e.tt.Ite(a[0].(*Term), a[1].(*Term), a[2].(*Term))
+	},
 	"verifReach": func(t *Thread, a []Value) Value { t.run.reach[argStr(a[0])] = true; return nil },
 	"verifYield": func(t *Thread, a []Value) Value {
 		saved := t.atomicDepth
